@@ -279,7 +279,6 @@ EXPORT char *_strtok_s_chk(char *restrict dest, rsize_t *restrict dmaxp,
             if (unlikely(slen == 0)) {
                 *ptr = NULL;
                 *dmaxp = 0;
-                *dest = '\0';
                 invoke_safe_str_constraint_handler(
                     "strtok_s: delim is unterminated", dest, ESUNTERM);
                 errno = ESUNTERM;
@@ -330,7 +329,6 @@ EXPORT char *_strtok_s_chk(char *restrict dest, rsize_t *restrict dmaxp,
             if (unlikely(slen == 0)) {
                 *ptr = NULL;
                 *dmaxp = 0;
-                *dest = '\0';
                 invoke_safe_str_constraint_handler(
                     "strtok_s: delim is unterminated", dest, ESUNTERM);
                 errno = ESUNTERM;
